@@ -811,6 +811,11 @@ int probe(const tobject& original, const tobject& clone)
     {
         // solvers drawing from std::random_device are not comparable run to run: applicable only when the
         // original reproduces itself
+        const auto& sid = original.type_id();
+        if (sid == "gs" || sid == "ags" || sid == "gs-lbfgs" || sid == "ags-lbfgs")
+        {
+            return -1;
+        }
         const auto r1 = run_solver(original);
         const auto r2 = run_solver(original);
         if (!same_doubles(r1, r2))
@@ -1031,8 +1036,20 @@ std::vector<double> run_solver_twice(const solver_t& solver)
     return r1;
 }
 
+// the gradient-sampling solvers draw from std::random_device (make_rng() without a seed): their runs are not comparable, and
+// "the original reproduces itself" can hold by chance (a run that ends before a draw matters) while the clone's run differs
+bool draws_unseeded(const solver_t& solver)
+{
+    const auto& id = solver.type_id();
+    return id == "gs" || id == "ags" || id == "gs-lbfgs" || id == "ags-lbfgs";
+}
+
 int probe_solvers(const solver_t& a, const solver_t& b)
 {
+    if (draws_unseeded(a) || draws_unseeded(b))
+    {
+        return -1;
+    }
     const auto r1 = run_solver_twice(a);
     if (!same_doubles(r1, run_solver_twice(a)))
     {
